@@ -8,12 +8,12 @@ through `List.lookup`), paths, bodies and status codes.  The model is `Model/C07
 (`reqPrio`/`respPrio` = the two `*_prioritize.go` tables, `foldReq`/`foldResp` = the fold sites,
 `encodeReq`/`encodeResp` = the SPOE transformers, `foldReqH` = the same fold on action OBJECTS).
 
-Two classes of inputs contradict the property on the unchanged code and are excluded by an
-explicit decidable hypothesis (`…_partial`) next to a proved witness (`…_violation_witness`):
-* F07a `f07aClass` — header names containing `:`/newline or values containing a newline are not
-  carried faithfully by `DumpHeaders`;
-* F07b `f07bClass` — the same action object handed to the request fold twice
-  (`ModifyRequestAction.ReqPrioritize` assigns to its receiver).
+Both defects found by this slice are repaired in /repo and the statements below are unconditional:
+* F07a — `DumpHeaders` now drops entries whose name is not an RFC 7230 token and removes CR/LF from
+  values (`sanitizeHdrs`); the encoding decodes to exactly the SANITIZED action for EVERY header map,
+  and the sanitized action is the action itself for valid HTTP header maps;
+* F07b — `ModifyRequestAction.ReqPrioritize(ModifyHeadersAction)` returns a fresh struct; the fold on
+  action OBJECTS equals the fold on values for every list of objects, repeated or not.
 -/
 namespace LunarVerif.C07
 
@@ -125,141 +125,106 @@ theorem resp_fold_ok (pre : List RespAct) (a : RespAct) :
 /-! ## Encoding handed to the proxy -/
 
 /-- The SPOE variables of a request action decode to exactly that action (kind, status, body,
-    host/path/query, headers; `HeadersToRemove` is not transmitted) — header maps outside F07a. -/
-theorem encode_faithful_partial (a : ReqAct) (hs : f07aClass a.hdrs = false) :
-    decodeReq (encodeReq a) = some a.eraseRm :=
-  decodeReq_encodeReq a (by simpa [f07aClass] using hs)
+    host/path/query, headers; `HeadersToRemove` is not transmitted) with its header map sanitized —
+    for EVERY header map. -/
+theorem encode_faithful (a : ReqAct) : decodeReq (encodeReq a) = some a.sanitized.eraseRm :=
+  decodeReq_encodeReq a
 
-theorem encode_resp_faithful_partial (a : RespAct) (hs : f07aClass a.hdrs = false) :
-    decodeResp (encodeResp a) = some a :=
-  decodeResp_encodeResp a (by simpa [f07aClass] using hs)
+theorem encode_resp_faithful (a : RespAct) : decodeResp (encodeResp a) = some a.sanitized :=
+  decodeResp_encodeResp a
 
-example : f07aClass (ReqAct.modReq [("authorization", "Bearer a:b"), ("x-y", "")] "h" "/p" "q=1" "").hdrs = false := by
+/-- Sanitizing changes nothing on valid HTTP header maps (names are tokens, no CR/LF in values) … -/
+theorem sanitized_of_valid (a : ReqAct) (hv : hdrsValid a.hdrs = true) : a.sanitized = a :=
+  ReqAct.sanitized_of_valid a hv
+
+theorem resp_sanitized_of_valid (a : RespAct) (hv : hdrsValid a.hdrs = true) : a.sanitized = a :=
+  RespAct.sanitized_of_valid a hv
+
+/-- … so for those the variables carry exactly the action. -/
+theorem encode_faithful_valid (a : ReqAct) (hv : hdrsValid a.hdrs = true) :
+    decodeReq (encodeReq a) = some a.eraseRm := by
+  rw [encode_faithful, sanitized_of_valid a hv]
+
+/-- An entry with an invalid name is DROPPED (never mis-read as another header); any other entry
+    keeps its name and loses only the line breaks of its value. -/
+theorem sanitized_lookup (a : ReqAct) (k : String) :
+    a.sanitized.hdrs.lookup k = if validName k then (a.hdrs.lookup k).map stripCRLF else none := by
+  rw [ReqAct.sanitized_hdrs, lookup_sanitize]
+
+example : hdrsValid (ReqAct.modReq [("authorization", "Bearer a:b"), ("x-y", "")] "h" "/p" "q=1" "").hdrs = true := by
   decide
 
-/-- F07a: for arbitrary header maps the encoding does NOT carry the headers: two different maps
-    have the same dump, and the decoded action differs from the encoded one. -/
-theorem encode_faithful_violation_witness :
-    ∃ a : ReqAct, decodeReq (encodeReq a) ≠ some a.eraseRm := by
-  refine ⟨.modHdr [("a:b", "c")], ?_⟩
-  decide
-
-theorem dump_not_injective : dumpHeaders [("a:b", "c")] = dumpHeaders [("a", "b:c")] := by decide
-
-/-- A value containing a newline smuggles a second header into the dump. -/
-theorem dump_injection_witness :
-    parseHeaders (dumpHeaders [("a", "1\nx-injected:2")]) = [("a", "1"), ("x-injected", "2")] := by decide
+/-- The former F07a witnesses: a name with `:` is dropped, a value with a newline cannot inject. -/
+example : decodeReq (encodeReq (.modHdr [("a:b", "c"), ("x", "1")])) = some (.modHdr [("x", "1")]) := by decide
+example : parseHeaders (dumpHeaders [("a", "1\nx-injected:2")]) = [("a", "1x-injected:2")] := by decide
 
 /-! ## Connection: the judge predicate is true of every model run -/
 
-/-- Request side, full observation of one fold (rule + encoding), outside F07a. -/
-theorem req_holds_partial (as : List ReqAct) (hs : f07aClass (foldReq as).hdrs = false) :
-    reqHolds as (foldReq as) (encodeReq (foldReq as)) = true := by
+/-- Request side, full observation of one fold (rule + encoding), every sequence. -/
+theorem req_holds (as : List ReqAct) : reqHolds as (foldReq as) (encodeReq (foldReq as)) = true := by
   unfold reqHolds reqEncOk
-  rw [req_fold_ok, encode_faithful_partial _ hs]
+  rw [req_fold_ok, encode_faithful]
   simp [ReqAct.sim_refl]
 
-theorem req_holds_violation_witness :
-    ∃ as : List ReqAct, reqHolds as (foldReq as) (encodeReq (foldReq as)) ≠ true := by
-  refine ⟨[.modHdr [("a:b", "c")]], ?_⟩
-  decide
-
-/-- Response side, one fold step, outside F07a. -/
-theorem resp_holds_partial (pre : List RespAct) (a : RespAct)
-    (hs : f07aClass (foldResp (pre ++ [a])).hdrs = false) :
+/-- Response side, one fold step, every sequence. -/
+theorem resp_holds (pre : List RespAct) (a : RespAct) :
     respHolds (pre ++ [a]) (foldResp pre) (foldResp (pre ++ [a])) (encodeResp (foldResp (pre ++ [a]))) = true := by
   unfold respHolds respEncOk
-  rw [resp_fold_ok, encode_resp_faithful_partial _ hs]
+  rw [resp_fold_ok, encode_resp_faithful]
   simp [RespAct.sim_refl]
 
-theorem resp_holds_violation_witness :
-    ∃ (pre : List RespAct) (a : RespAct),
-      respHolds (pre ++ [a]) (foldResp pre) (foldResp (pre ++ [a])) (encodeResp (foldResp (pre ++ [a]))) ≠ true := by
-  refine ⟨[], .retry [("k", "v\n")], ?_⟩
-  decide
-
-/-- The judge predicate `Spec.holds` is true of the observable history of every model run whose
-    intermediate results stay outside F07a. -/
-theorem holds_model_history_partial (rs : List ReqAct) (ss : List RespAct)
-    (hr : ∀ i, f07aClass (foldReq (rs.take (i + 1))).hdrs = false)
-    (hsafe : ∀ i, f07aClass (foldResp (ss.take i ++ [ss.getD i .noop])).hdrs = false) :
+/-- The judge predicate `Spec.holds` is true of the observable history (every prefix) of EVERY
+    model run. -/
+theorem holds_model_history (rs : List ReqAct) (ss : List RespAct) :
     holds (reqHistory rs ++ respHistory ss) = true := by
   unfold holds
   rw [List.all_eq_true]
   intro o ho
   rcases List.mem_append.mp ho with ho | ho
   · obtain ⟨i, _, rfl⟩ := List.mem_map.mp ho
-    exact req_holds_partial _ (hr i)
+    exact req_holds _
   · obtain ⟨i, _, rfl⟩ := List.mem_map.mp ho
-    exact resp_holds_partial _ _ (hsafe i)
+    exact resp_holds _ _
 
-example : holds (reqHistory [.modHdr [("x", "1")], .noop, .modReq [("x", "2")] "h" "/p" "" "b"] ++
-    respHistory [.retry [("x", "1")], .modResp [] "b" 200]) = true := by decide
+example : holds (reqHistory [.modHdr [("x", "1")], .noop, .modReq [("x", "2"), ("a:b", "c")] "h" "/p" "" "b"] ++
+    respHistory [.retry [("x", "1\n")], .modResp [] "b" 200]) = true := by decide
 
-/-- Fold SITE (`getSPOEReqActions`): only the variables are visible; what they decode to obeys
-    the rule for the actions handed in — when no input header map is in class F07a. -/
-theorem req_site_holds_partial (as : List ReqAct) (hs : f07aClass (as.flatMap (·.hdrs)) = false) :
-    reqSiteHolds as (encodeReq (foldReq as)) = true := by
-  have hsafe : hdrsSafe (foldReq as).hdrs = true := foldReq_safe as (by simpa [f07aClass] using hs)
+/-- Fold SITE (`getSPOEReqActions`, `runOnRequest`): only the variables are visible; what they decode
+    to obeys the rule for the (sanitized) actions handed in — every sequence. -/
+theorem req_site_holds (as : List ReqAct) : reqSiteHolds as (encodeReq (foldReq as)) = true := by
   unfold reqSiteHolds
-  rw [decodeReq_encodeReq _ hsafe]
-  exact reqFoldOk_eraseRm as _ (req_fold_ok as)
+  rw [decodeReq_encodeReq]
+  exact reqFoldOk_eraseRm _ _ (reqFoldOk_sanitized as)
 
-theorem req_site_holds_violation_witness :
-    ∃ as : List ReqAct, reqSiteHolds as (encodeReq (foldReq as)) ≠ true := by
-  refine ⟨[.modHdr [("x", "1")], .modReq [("a", "1\nx:2")] "" "" "" ""], ?_⟩
-  decide
-
-/-- Fold SITE (`getSPOERespActions`), same. -/
-theorem resp_site_holds_partial (as : List RespAct) (hs : f07aClass (as.flatMap (·.hdrs)) = false) :
-    respSiteHolds as (encodeResp (foldResp as)) = true := by
-  have hsafe : hdrsSafe (foldResp as).hdrs = true := foldResp_safe as (by simpa [f07aClass] using hs)
+/-- Fold SITE (`getSPOERespActions`, `runOnResponse`), same. -/
+theorem resp_site_holds (as : List RespAct) : respSiteHolds as (encodeResp (foldResp as)) = true := by
   unfold respSiteHolds
-  rw [decodeResp_encodeResp _ hsafe]
-  exact respRuleOk_foldResp as
+  rw [decodeResp_encodeResp]
+  exact respRuleOk_sanitized as
 
-theorem resp_site_holds_violation_witness :
-    ∃ as : List RespAct, respSiteHolds as (encodeResp (foldResp as)) ≠ true := by
-  refine ⟨[.retry [("k", "v")], .retry [("a:b", "c")]], ?_⟩
-  decide
-
-/-- The judge predicate is true of the site observations of every model run on F07a-free inputs. -/
-theorem holds_site_history_partial (rs : List ReqAct) (ss : List RespAct)
-    (hr : f07aClass (rs.flatMap (·.hdrs)) = false) (hsafe : f07aClass (ss.flatMap (·.hdrs)) = false) :
+theorem holds_site_history (rs : List ReqAct) (ss : List RespAct) :
     holds [.reqSite rs (encodeReq (foldReq rs)), .respSite ss (encodeResp (foldResp ss))] = true := by
-  simp [holds, Obs.holds, req_site_holds_partial rs hr, resp_site_holds_partial ss hsafe]
+  simp [holds, Obs.holds, req_site_holds rs, resp_site_holds ss]
 
-example : holds [.reqSite [.genReq [("x", "1")] ["r"] "g", .modHdr [("x", "2"), ("y", "Y")]]
-      (encodeReq (foldReq [.genReq [("x", "1")] ["r"] "g", .modHdr [("x", "2"), ("y", "Y")]])),
+example : holds [.reqSite [.genReq [("x", "1")] ["r"] "g", .modHdr [("x", "2"), ("y", "Y"), ("bad name", "v")]]
+      (encodeReq (foldReq [.genReq [("x", "1")] ["r"] "g", .modHdr [("x", "2"), ("y", "Y"), ("bad name", "v")]])),
     .respSite [.modResp [("x", "1")] "b" 200, .noop] (encodeResp (foldResp [.modResp [("x", "1")] "b" 200, .noop]))] = true := by
   decide
 
-/-! ## Object level: the fold on pointers agrees with the fold on values unless an object repeats -/
+/-! ## Object level: the fold on pointers agrees with the fold on values -/
 
-/-- Folding the objects named `ns` (pairwise distinct: outside F07b) whose current values are
-    `vals` yields exactly `foldReq vals`, and no object outside `ns` is touched. -/
-theorem obj_fold_partial (s : Store) (ns : List String) (vals : List ReqAct)
-    (hd : f07bClass ns = false)
+/-- Folding the objects named `ns` (ANY list, the same object may occur several times) whose values
+    are `vals` yields exactly `foldReq vals`; the fold writes to no object (the store is not even
+    an output of `foldReqH`). -/
+theorem obj_fold (s : Store) (ns : List String) (vals : List ReqAct)
     (hv : ns.map (fun n => (s.lookup n).bind Obj.asReq) = vals.map some) :
-    ∃ s' acc', foldReqH s (.val .noop) ns = some (s', acc') ∧ acc'.get s' = some (foldReq vals) ∧
-      ∀ m, m ∉ ns → s'.lookup m = s.lookup m := by
-  obtain ⟨s', acc', h1, h2, h3⟩ := foldReqH_pure ns s (.val .noop) .noop vals rfl
-    (fun i hi => by cases hi) (by simpa [f07bClass] using hd) hv
-  exact ⟨s', acc', h1, h2, fun m hm => h3 m hm (fun i hi => by cases hi)⟩
+    ∃ acc', foldReqH s (.val .noop) ns = some acc' ∧ acc'.get s = some (foldReq vals) :=
+  foldReqH_pure ns s (.val .noop) .noop vals rfl hv
 
-/-- F07b: with the same `ModifyRequestAction` object twice in the sequence the rule fails: the
-    object was mutated by the first merge, so its second occurrence writes the OTHER action's
-    value of `x` (last writer `m` says `1`, result says `2`). -/
-theorem obj_fold_violation_witness :
-    ∃ (s : Store) (ns : List String) (vals : List ReqAct) (s' : Store) (acc' : Acc) (out : ReqAct),
-      ns.map (fun n => (s.lookup n).bind Obj.asReq) = vals.map some ∧
-      foldReqH s (.val .noop) ns = some (s', acc') ∧ acc'.get s' = some out ∧
-      reqFoldOk vals out ≠ true := by
-  refine ⟨[("m", .req (.modReq [("x", "1")] "" "" "" "")), ("h", .req (.modHdr [("x", "2")]))],
-    ["m", "h", "m"],
-    [.modReq [("x", "1")] "" "" "" "", .modHdr [("x", "2")], .modReq [("x", "1")] "" "" "" ""],
-    [("m", .req (.modReq [("x", "2")] "" "" "" "")), ("h", .req (.modHdr [("x", "2")]))],
-    .val (.modReq [("x", "2")] "" "" "" ""), .modReq [("x", "2")] "" "" "" "", ?_, ?_, ?_, ?_⟩ <;> decide
+/-- The former F07b witness `[m, h, m]`: the last writer `m` now wins. -/
+example :
+    (foldReqH [("m", .req (.modReq [("x", "1")] "" "" "" "")), ("h", .req (.modHdr [("x", "2")]))]
+      (.val .noop) ["m", "h", "m"]) = some (.val (.modReq [("x", "1")] "" "" "" "")) := by decide
 
 /-! ## As coded, outside the property (recorded so that a change is noticed) -/
 
